@@ -242,8 +242,11 @@ type Opts struct {
 func (o Opts) Ctx() context.Context {
 	ctx := context.Background()
 	if loc := zoneOf(o.Zone); loc != nil {
-		// derived from a context that carries another zone: the innermost setting wins
+		// derived from a context that carries another zone: the innermost setting wins. The parent's zone
+		// has the *name* of the case's zone and another offset (all fixed zones built from an offset are
+		// named ""): a zone is what it does, not what it is called
 		ctx = types.ContextWithTZ(ctx, outerZone)
+		ctx = types.ContextWithTZ(ctx, time.FixedZone(loc.String(), 7*3600+1800))
 		ctx = types.ContextWithTZ(ctx, loc)
 	}
 	return ctx
